@@ -93,7 +93,7 @@ def _split(kind, total, shards, **extra):
     return out
 
 
-EXH = {"quick": {"rand_len": 5, "grid_len": 3}, "thorough": {"rand_len": 6, "grid_len": 4}}
+EXH = {"quick": {"rand_len": 4, "grid_len": 3}, "thorough": {"rand_len": 6, "grid_len": 4}}
 
 
 def exhaustive(tier):
@@ -105,12 +105,12 @@ def plan(tier, seed):
     q = tier == "quick"
     shards = []
     # cost per case (one core): fn ~2 ms, ds ~30 ms, limit ~13 ms, exhaustive array 5-9 ms
-    shards += _split("fn", 28000 if q else 500000, 8 if q else 48)
-    shards += _split("ds", 2800 if q else 30000, 8 if q else 48)
-    shards += _split("limit", 2000 if q else 30000, 4 if q else 16)
+    shards += _split("fn", 24000 if q else 500000, 8 if q else 48)
+    shards += _split("ds", 2400 if q else 30000, 8 if q else 48)
+    shards += _split("limit", 1600 if q else 30000, 4 if q else 16)
     e = EXH[tier]
     n_rand = sum(len(G.ALPHA1) ** n for n in range(e["rand_len"] + 1))
-    shards += _split("exh_rand", n_rand, 4 if q else 8, max_len=e["rand_len"])
+    shards += _split("exh_rand", n_rand, 1 if q else 8, max_len=e["rand_len"])
     shards += _split("exh_grid", G.exhaustive_grid_count(e["grid_len"]), 3 if q else 16,
                      max_len=e["grid_len"])
     if ALIAS_ADJUNCT:
